@@ -1,6 +1,7 @@
 (* OpsAddress.v — case-protocol entry points for base58 and Address (C12).
    Instances: H := Keccak.keccak256, valid_pk := Ed25519.pk_valid. *)
 From MRS Require Import Model.Base Model.Network Model.Base58 Model.Address Model.Keccak Model.Ed25519 Model.OpsBasic.
+From MRS Require Model.EdInst Model.Keys.
 From Coq Require Import String Ascii.
 Open Scope string_scope.
 Open Scope N_scope.
@@ -26,6 +27,19 @@ Definition atype_of_desc (s : string) : option addr_type :=
            end
        | _ => None
        end.
+
+(* hex::ToHex::encode_hex_upper: the digits a..f of the lower-case form in upper case *)
+Definition upper_hex_byte (c : byte) : byte :=
+  let n := b2n c in if (97 <=? n) && (n <=? 102) then n2b (n - 32) else c.
+(* Display for AddressType *)
+Definition atype_display (t : addr_type) : bytes :=
+  bytes_of_string (match t with
+                   | Standard => "Standard address"
+                   | Integrated _ => "Integrated address"
+                   | SubAddress => "Subaddress"
+                   end).
+(* PublicKey::from_private_key on the executable Ed25519 instance *)
+Definition pub_of (s : Z) : bytes := @Keys.pk_from_priv EdInst.ed25519_ops s.
 
 Definition show_addr (r : res addr) : string :=
   match r with
@@ -69,11 +83,33 @@ Definition ops_address (op : string) (args : list string) : option string :=
               let a := mkaddr n t s v in
               Some (match kaddr_to_string a with
                     | Ok text => "OK " ++ show_hex (kaddr_as_bytes a) ++ " " ++ show_hex text ++ " " ++
-                                 show_hex (kaddr_as_hex a) ++ " " ++ show_hex (kaddr_consensus_encode a)
+                                 show_hex (kaddr_as_hex a) ++ " " ++ show_hex (kaddr_consensus_encode a) ++ " " ++
+                                 (* ToHex::encode_hex, ToHex::encode_hex_upper, Display for AddressType *)
+                                 show_hex (kaddr_as_hex a) ++ " " ++ show_hex (map upper_hex_byte (kaddr_as_hex a)) ++ " " ++
+                                 show_hex (atype_display t)
                     | _ => "PANIC"
                     end)
             else None
         | _, _, _, _ => None
+        end
+    | _ => None
+    end
+  else if String.eqb op "addr_of_keys" then
+    (* Address::from_keypair(net, &KeyPair{view, spend}) and Address::from_viewpair(net, &ViewPair{view, spend: pub(spend)}):
+       the standard address of (spend*G, view*G); both texts *)
+    match args with
+    | [n; v; s] =>
+        match net_of_string n, parse_hex v, parse_hex s with
+        | Some n, Some v, Some s =>
+            Some (match Keys.sk_from_slice v, Keys.sk_from_slice s with
+                  | Ok v, Ok s =>
+                      match kaddr_to_string (mkaddr n Standard (pub_of s) (pub_of v)) with
+                      | Ok text => "OK " ++ show_hex text ++ " " ++ show_hex text
+                      | _ => "PANIC"
+                      end
+                  | _, _ => "ERR"
+                  end)
+        | _, _, _ => None
         end
     | _ => None
     end
